@@ -4,7 +4,7 @@ CONSTANTS
   MaxTime = 22
   MaxSkew = 1
   Budget = 1
-  Variant = "code"
+  Variant = "blockinghandover"
   Faults <- WriteFaults
   MaxToggle = 1
   Removal = FALSE
